@@ -1,5 +1,5 @@
 """C09 — Null builds run nothing; a command re-runs exactly when its definition changed (signature structure)."""
-from sa.facts import AnalysisBroken, expr_str, qmatch, strip_casts, relpath, core
+from sa.facts import expr_plain, AnalysisBroken, expr_str, qmatch, strip_casts, relpath, core
 from sa import cfg
 from sa.flow import arg_nodes
 from rules import engine as E
@@ -187,10 +187,74 @@ def loop_id(f, lp):
     return lp["id"]
 
 
+def r_valid_matches_record(prog, rep):
+    r = rep.rule("R-VALID-MATCHES-RECORD", "a command class that checks its own outputs on disk asks, in isResultValid, the same question of the same path as the one whose "
+                                           "answer execute() recorded (same query: file info vs link info; same path expression): otherwise an untouched output "
+                                           "never matches and the command re-runs in every build, or a changed one always matches", floor=2)
+    Q = ("getFileInfo", "getLinkInfo", "getFileChecksum")
+
+    def queries(f):
+        out = []
+        env = {v["n"]: f.nodes[v["init"]] for d in f.nodes if d.get("k") == "decl" for v in d.get("vars", []) if "init" in v}
+        for c in f.calls():
+            nm = (c.get("fn") or "").split("::")[-1]
+            if c.get("k") != "call" or nm not in Q:
+                continue
+            recv = expr_plain(c.child("obj")) if "obj" in c else ""
+            args = [a for a in arg_nodes(c) if a is not None]
+            is_fs = any(t in recv for t in ("getFileSystem()", "fs")) and "Node" not in (c.get("fn") or "")
+            if "Node::" in (c.get("fn") or "") or "node" in recv.lower() or "outputs" in recv.lower() or "getOutputs" in recv:
+                subject = "node:" + recv
+            else:
+                a0 = args[0] if args else None
+                a0c = core(a0) if a0 is not None else None
+                # look through a local initialised once (StringRef outputPath = getActualOutputPath())
+                txt = expr_plain(a0) if a0 is not None else ""
+                for x in (a0.walk() if a0 is not None else []):
+                    if x.get("k") == "ref" and x.get("n") in env:
+                        txt = txt.replace(x["n"], expr_plain(env[x["n"]]))
+                subject = "path:" + txt.replace(".operator basic_string()", "").replace("this->", "")
+            out.append((nm, subject))
+        return out
+    classes = {}
+    for f in list(prog.overriders("Command::isResultValid")) + prog.fns("ExternalCommand::isResultValid"):
+        if f.name.split("::")[-1] == "isResultValid" and not f.is_lambda:
+            classes[f.cls] = f
+    n = 0
+    for cls, v in sorted(classes.items()):
+        vq = queries(v)
+        if not vq:
+            continue
+        short = cls.split("::")[-1]
+        rec = []
+        for g in prog.functions.values():
+            if g.cls == cls and not g.is_lambda and g.name.split("::")[-1] in ("execute", "computeCommandResult", "executeExternalCommand"):
+                rec += queries(g)
+        n += 1
+        if not rec:
+            # the class records through its base (MkdirCommand -> ExternalCommand::computeCommandResult on its output nodes)
+            bases = [b for b in prog.records.get(cls, {}).get("bases", [])]
+            for b in bases:
+                for g in prog.functions.values():
+                    if g.cls == b and not g.is_lambda and g.name.split("::")[-1] in ("execute", "computeCommandResult"):
+                        rec += queries(g)
+        kinds_v, kinds_r = set(k for k, _ in vq), set(k for k, _ in rec)
+
+        def norm(sj):
+            return "node" if sj.startswith("node:") else sj
+        ok = bool(rec) and kinds_v <= kinds_r and set(norm(sj) for _, sj in vq) <= set(norm(sj) for _, sj in rec)
+        r.check(ok, "%s|validity-asks-what-execute-recorded" % short, "%s" % sorted(set(vq)),
+                "isResultValid asks %s but execute recorded %s" % (sorted(set(vq)), sorted(set(rec))), v)
+    if n < 2:
+        raise AnalysisBroken("only %d command classes query the file system in isResultValid" % n)
+    return r
+
+
 def run(ctx):
     prog, rep = ctx.prog, ctx.report
     from rules import C08
     C08.r_output_compare(prog, rep, with_inputs=False)
+    r_valid_matches_record(prog, rep)
 
     # ------------------------------------------------------------------ coverage
     r = rep.rule("R-SIG-COVERAGE", "every data member that a configure* method of a command class writes is folded by that class's getSignature "
@@ -331,6 +395,14 @@ def run(ctx):
 
 
 VARIANTS = [
+    dict(name="symlink-validity-stats-declared-output", file="lib/BuildSystem/BuildSystem.cpp",
+         old="    auto info = system.getFileSystem().getLinkInfo(outputPath);\n    if (info.isMissing())\n      return false;\n\n    return info == value.getOutputInfo();",
+         new="    auto info = outputs[0]->getLinkInfo(system.getFileSystem());\n    if (info.isMissing())\n      return false;\n\n    return info == value.getOutputInfo();",
+         expect=("R-VALID-MATCHES-RECORD", "SymlinkCommand")),
+    dict(name="symlink-validity-follows-link", file="lib/BuildSystem/BuildSystem.cpp",
+         old="    auto info = system.getFileSystem().getLinkInfo(outputPath);\n    if (info.isMissing())\n      return false;\n\n    return info == value.getOutputInfo();",
+         new="    auto info = system.getFileSystem().getFileInfo(outputPath);\n    if (info.isMissing())\n      return false;\n\n    return info == value.getOutputInfo();",
+         expect=("R-VALID-MATCHES-RECORD", "SymlinkCommand")),
     dict(name="shell-args-not-folded", file="lib/BuildSystem/ShellCommand.cpp",
          old="    for (const auto& arg: args) {\n      code = code.combine(arg);\n    }\n", new="", expect=("R-SIG-COVERAGE", "ShellCommand|args")),
     dict(name="always-out-of-date-dropped", file="lib/BuildSystem/ExternalCommand.cpp",
